@@ -7,6 +7,7 @@ import (
 	"os"
 	"time"
 
+	"github.com/AdguardTeam/golibs/errors"
 	"github.com/AdguardTeam/golibs/logutil/slogutil"
 	"github.com/AdguardTeam/golibs/osutil"
 )
@@ -115,7 +116,7 @@ func (h *SignalHandler) shutdown(ctx context.Context) (status osutil.ExitCode) {
 	status = osutil.ExitCodeSuccess
 	for i := len(h.services) - 1; i >= 0; i-- {
 		s := h.services[i]
-		err := s.Shutdown(ctx)
+		err := shutdownService(ctx, s)
 		if err == nil {
 			continue
 		}
@@ -128,4 +129,17 @@ func (h *SignalHandler) shutdown(ctx context.Context) (status osutil.ExitCode) {
 	h.logger.InfoContext(ctx, "shut down", "status", status)
 
 	return status
+}
+
+// shutdownService shuts down s.  A panic in s is turned into an error, so that
+// a faulty service neither prevents the remaining services from being shut down
+// nor makes the handler report success.
+func shutdownService(ctx context.Context, s Interface) (err error) {
+	defer func() {
+		if v := recover(); v != nil {
+			err = errors.FromRecovered(v)
+		}
+	}()
+
+	return s.Shutdown(ctx)
 }
